@@ -7,12 +7,15 @@ import (
 	"context"
 	"encoding/json"
 	"fmt"
+	"io"
+	"net"
 	"os"
 	"path/filepath"
 	"runtime"
 	"strings"
 	"sync"
 	"sync/atomic"
+	"syscall"
 	"testing"
 	"time"
 
@@ -57,6 +60,23 @@ type c08Scanner struct {
 	unknown   []string
 }
 
+// the error values real probes produce: timeouts, refusals, resets, cancellations
+func c08ProbeErr(i int) error {
+	switch i % 6 {
+	case 1:
+		return fmt.Errorf("probe failure #%d: %w", i, context.DeadlineExceeded)
+	case 2:
+		return &net.OpError{Op: "dial", Net: "tcp", Err: fmt.Errorf("probe failure #%d: %w", i, os.ErrDeadlineExceeded)}
+	case 3:
+		return fmt.Errorf("probe failure #%d: %w", i, syscall.ECONNRESET)
+	case 4:
+		return fmt.Errorf("probe failure #%d: %w", i, context.Canceled)
+	case 5:
+		return fmt.Errorf("probe failure #%d: %w", i, io.EOF)
+	}
+	return fmt.Errorf("probe failure #%d", i)
+}
+
 func c08Index(r *scan.Request) int {
 	ip := r.DstIP.To4()
 	if ip == nil {
@@ -94,7 +114,7 @@ func (s *c08Scanner) Scan(ctx context.Context, r *scan.Request) (scan.Result, er
 	case 'p':
 		return &socks5.ScanResult{ScanType: "socks", Version: 5, IP: r.DstIP.String(), Port: r.DstPort}, nil
 	case 'e':
-		return nil, fmt.Errorf("probe failure #%d", i)
+		return nil, c08ProbeErr(i)
 	}
 	return nil, nil
 }
@@ -164,7 +184,7 @@ func c08Check(c c08Case) *kit.Verdict {
 		case 'p':
 			wantPos[fmt.Sprintf("%s:%d", ip, port)]++
 		case 'e':
-			wantErr[fmt.Sprintf("probe failure #%d", i)]++
+			wantErr[c08ProbeErr(i).Error()]++
 		}
 		wantCalls++
 		fmt.Fprintf(&sb, `{"ip":"%s","port":%d}`+"\n", ip, port)
